@@ -149,10 +149,10 @@ func processRequest(msg *message.Message, data *HandlingDataManager) (action.Act
 		flowActions := &stream_config.StreamActions{
 			Request: &stream_config.RequestStream{},
 		}
-		if err = runner.RunFlow(data.stream, apiStream, flowActions); err == nil {
+		if err = runner.RunFlow(data.getStream(), apiStream, flowActions); err == nil {
 			actions = getSPOEReqActions(args, flowActions.Request.Actions)
 		}
-		data.GetMetricManager().UpdateMetricsForFlow(data.stream)
+		data.GetMetricManager().UpdateMetricsForFlow(data.getStream())
 	} else {
 		// This is a patch for the legacy mode body parsing
 		args.Body = bytes.NewBuffer(args.RawBody).String()
@@ -188,10 +188,10 @@ func processResponse(msg *message.Message, data *HandlingDataManager) (action.Ac
 		flowActions := &stream_config.StreamActions{
 			Response: &stream_config.ResponseStream{},
 		}
-		if err = runner.RunFlow(data.stream, apiStream, flowActions); err == nil {
+		if err = runner.RunFlow(data.getStream(), apiStream, flowActions); err == nil {
 			actions = getSPOERespActions(args, flowActions.Response.Actions)
 		}
-		data.GetMetricManager().UpdateMetricsForFlow(data.stream)
+		data.GetMetricManager().UpdateMetricsForFlow(data.getStream())
 	} else {
 		// This is a patch for the legacy mode body parsing
 		args.Body = bytes.NewBuffer(args.RawBody).String()
